@@ -29,6 +29,11 @@ ASSUMPTIONS = ["healpy.query_disc/query_polygon(inclusive=True) return a "
                "healpy angle conventions (colatitude, longitude in radians)"]
 
 MUTANTS = [
+    ("non-finite mask reduced over the whole query",
+     "AegeanTools/regions.py",
+     "        mask = np.bitwise_not(np.logical_and.reduce(\n"
+     "            np.isfinite(theta_phi), axis=1))",
+     "        mask = np.bitwise_not(np.all(np.isfinite(theta_phi)))", "C09-R3"),
     ("depth clamp written with max instead of min", "AegeanTools/regions.py",
      "        if depth is None or depth > self.maxdepth:\n"
      "            depth = self.maxdepth\n\n        try:",
@@ -157,6 +162,7 @@ def run(ctx):
     membership_rule(ctx, prog, sw, g, rets, rname, "C09-R6")
     r8_unit_agnostic(ctx, prog, ci, sw)
     r9_depth_clamp(ctx, prog, ci)
+    r10_dtype(ctx, prog, ci)
     # ---------------------------------------------------------------- R4
     ctx.rule("C09-R4", "radec2sky: scalar fallback on TypeError; the result "
              "is a 2-column array for any number of positions")
@@ -254,6 +260,38 @@ def nonfinite_rule(ctx, prog, ci, rule):
                   if mdef else "mask definition", okm,
                   "the mask must flag rows where any coordinate is not "
                   "finite", node=mdef[0] if mdef else sw.node)
+        # ... decided PER POSITION: the finiteness test is reduced along
+        # the coordinate axis of the (N, 2) array (axis=1 / -1), or combined
+        # element-wise (isfinite(a) & isfinite(b)); a reduction over the
+        # whole array makes one undefined position spoil all the others
+        if len(mdef) == 1:
+            reds = [c for c in ast.walk(mdef[0].value)
+                    if isinstance(c, ast.Call) and (
+                        norm(c.func).split(".")[-1] in ("all", "any",
+                                                        "alltrue") or
+                        norm(c.func).endswith(".reduce")) and any(
+                            isinstance(x, ast.Call) and
+                            norm(x.func).split(".")[-1] == "isfinite"
+                            for x in ast.walk(c))]
+            badax = []
+            for c in reds:
+                ax = kwarg(c, "axis")
+                if ax is None and len(c.args) > 1:
+                    ax = c.args[1]
+                if ax is None and isinstance(c.func, ast.Attribute) and \
+                        c.func.attr in ("all", "any") and c.args and \
+                        not norm(c.func).startswith(("np.", "numpy.")):
+                    ax = c.args[0]
+                if not (ax is not None and
+                        norm(ax).replace(" ", "") in ("1", "-1")):
+                    badax.append(c)
+            ctx.check(rule, sw, "finiteness decided per position "
+                      "(%d reduction(s))" % len(reds), not badax,
+                      "%s reduces over every position at once (no axis=1): "
+                      "a single nan / inf coordinate in a vector query makes "
+                      "EVERY position report as outside" %
+                      (norm(badax[0], 60) if badax else ""),
+                      node=badax[0] if badax else mdef[0])
     # the mask is EXACTLY the non-finite mask: no other writer widens it
     if forced:
         others = []
@@ -419,6 +457,30 @@ def membership_for(ctx, prog, ci, rule):
         raise AnalysisError(rule + ": sky_within return sites")
     membership_rule(ctx, prog, sw, g, rets, norm(g.stmt[rets[0]].value),
                     rule)
+
+
+def r10_dtype(ctx, prog, ci, rule="C09-R10"):
+    """positions given as integers (add_circles(0, 0, r): a circle at the
+    origin, in radians) are converted in floating point"""
+    from ..precision import inplace_on_inherited_dtype
+    ctx.rule(rule, "integer coordinates: the conversions of Region (sky2ang, "
+             "sky2vec, vec2sky, radec2sky, sky_within, add_circles, "
+             "add_poly) never store a fractional value into an array that "
+             "inherited its dtype from the caller (`t = sky.copy(); t[:, 0] "
+             "= pi/2 - t[:, 0]` truncates to 1 for integer input: the shape "
+             "lands at dec 32.7 deg instead of the equator)")
+    n = 0
+    for m in ("sky2ang", "sky2vec", "vec2sky", "radec2sky", "sky_within",
+              "add_circles", "add_poly"):
+        fi = ci.methods.get(m)
+        if fi is None:
+            continue
+        n += 1
+        bad = inplace_on_inherited_dtype(prog, fi)
+        ctx.check(rule, fi, "no fractional store into an inherited dtype in "
+                  + m, not bad, bad[0][1] if bad else "",
+                  node=bad[0][0] if bad else fi.node)
+    ctx.floor(rule, n, 5, "conversion functions of Region")
 
 
 def r9_depth_clamp(ctx, prog, ci, rule="C09-R9"):
